@@ -763,12 +763,87 @@ func c13BoolHelperEstablishes(h *ssa.Function, idx int, bind map[ssa.Value]int64
 		if cv, isConst := a.Val.(*ssa.Const); isConst && cv.Value != nil && cv.Value.Kind() == constant.Bool && !constant.BoolVal(cv.Value) {
 			continue
 		}
-		if c13AtomReach(h.Blocks[0], 0, a, ct) {
+		// a returned condition (`return err == nil`): when it is true, every If on the same condition took its
+		// true edge — paths over the false edges of such Ifs cannot end in this return with a true value
+		ct2 := newCut()
+		for k := range ct.instrs {
+			ct2.instrs[k] = true
+		}
+		for k := range ct.edges {
+			ct2.edges[k] = true
+		}
+		ct2.Edges(c13EdgesExcludedBy(h, a.Val, true)...)
+		if c13AtomReach(h.Blocks[0], 0, a, ct2) {
 			ok = false
 		}
 	}
 	c13SummaryMemo[key] = ok
 	return ok
+}
+
+// c13SameCond: two boolean values denote the same condition (same comparison
+// of the same operands); neg = they are negations of each other.
+func c13SameCond(a, b ssa.Value) (same, neg bool) {
+	for {
+		u, ok := a.(*ssa.UnOp)
+		if !ok || u.Op != token.NOT {
+			break
+		}
+		a, neg = u.X, !neg
+	}
+	for {
+		u, ok := b.(*ssa.UnOp)
+		if !ok || u.Op != token.NOT {
+			break
+		}
+		b, neg = u.X, !neg
+	}
+	if a == b {
+		return true, neg
+	}
+	x, ok1 := a.(*ssa.BinOp)
+	y, ok2 := b.(*ssa.BinOp)
+	if !ok1 || !ok2 {
+		return false, false
+	}
+	sameOps := (x.X == y.X && x.Y == y.Y) || ((x.Op == token.EQL || x.Op == token.NEQ) && x.X == y.Y && x.Y == y.X)
+	if !sameOps {
+		// constants are distinct SSA values: compare them by value
+		cx, okx := x.Y.(*ssa.Const)
+		cy, oky := y.Y.(*ssa.Const)
+		if !(x.X == y.X && okx && oky && ((cx.Value == nil && cy.Value == nil) || (cx.Value != nil && cy.Value != nil && constant.Compare(cx.Value, token.EQL, cy.Value)))) {
+			return false, false
+		}
+	}
+	switch {
+	case x.Op == y.Op:
+		return true, neg
+	case (x.Op == token.EQL && y.Op == token.NEQ) || (x.Op == token.NEQ && y.Op == token.EQL):
+		return true, !neg
+	}
+	return false, false
+}
+
+// c13EdgesExcludedBy: the If edges of fn that cannot have been taken when
+// the boolean value v has the given truth value.
+func c13EdgesExcludedBy(fn *ssa.Function, v ssa.Value, truth bool) []Edge {
+	var out []Edge
+	if _, isConst := v.(*ssa.Const); isConst {
+		return nil
+	}
+	for _, i := range Ifs(fn) {
+		cond, t, f := ifEdges(i)
+		same, neg := c13SameCond(v, cond)
+		if !same {
+			continue
+		}
+		if truth != neg { // cond is true: its false edge is excluded
+			out = append(out, f)
+		} else {
+			out = append(out, t)
+		}
+	}
+	return out
 }
 
 // c13VoidHelperEstablishes: every return of the procedure h passes the fact
@@ -1117,4 +1192,340 @@ func c13ChainReach(fromB *ssa.BasicBlock, fromIdx int, edges []Edge, target ssa.
 		}
 	}
 	return true
+}
+
+// ---------- iterator pipelines (range-over-func, iter.Seq producers) ----------
+
+// c13Frame is one activation in a statically resolved chain: a function
+// entered by a call (args known) or a closure created by a MakeClosure
+// (bindings known) inside the parent activation.
+type c13Frame struct {
+	Fn     *ssa.Function
+	Call   ssa.CallInstruction // nil for closures / the top frame
+	MC     *ssa.MakeClosure    // nil for called functions / the top frame
+	Parent *c13Frame
+}
+
+type c13Origin struct {
+	Val   ssa.Value
+	Frame *c13Frame
+}
+
+// c13OriginOf follows v (a value of fr.Fn) outwards through single-store
+// cells, free variables (to the MakeClosure bindings in the parent frame) and
+// parameters (to the arguments of the call that created the frame).
+func c13OriginOf(v ssa.Value, fr *c13Frame) c13Origin {
+	for i := 0; i < 32 && v != nil && fr != nil; i++ {
+		v = strip(v)
+		switch u := v.(type) {
+		case *ssa.UnOp:
+			if u.Op != token.MUL {
+				return c13Origin{v, fr}
+			}
+			switch x := u.X.(type) {
+			case *ssa.Alloc:
+				st := storesTo(x)
+				if len(st) != 1 || len(closureWriters(x)) > 0 {
+					return c13Origin{v, fr}
+				}
+				v = st[0].Val
+				continue
+			case *ssa.FreeVar:
+				if fr.MC == nil || fr.Parent == nil {
+					return c13Origin{v, fr}
+				}
+				idx := -1
+				for k, fv := range fr.Fn.FreeVars {
+					if fv == x {
+						idx = k
+					}
+				}
+				if idx < 0 {
+					return c13Origin{v, fr}
+				}
+				b := fr.MC.Bindings[idx]
+				fr = fr.Parent
+				// the binding is the address of the captured variable: its content
+				if al, ok := b.(*ssa.Alloc); ok {
+					st := storesTo(al)
+					if len(st) != 1 || len(closureWriters(al)) > 0 {
+						return c13Origin{b, fr}
+					}
+					v = st[0].Val
+					continue
+				}
+				if fv, ok := b.(*ssa.FreeVar); ok { // captured variable of an enclosing closure, passed on
+					v = &ssa.UnOp{Op: token.MUL, X: fv}
+					continue
+				}
+				return c13Origin{b, fr}
+			}
+			return c13Origin{v, fr}
+		case *ssa.FreeVar: // a captured value used directly (by-value capture)
+			if fr.MC == nil || fr.Parent == nil {
+				return c13Origin{v, fr}
+			}
+			idx := -1
+			for k, fv := range fr.Fn.FreeVars {
+				if fv == u {
+					idx = k
+				}
+			}
+			if idx < 0 {
+				return c13Origin{v, fr}
+			}
+			v, fr = fr.MC.Bindings[idx], fr.Parent
+			continue
+		case *ssa.Parameter:
+			if fr.Call == nil || fr.Parent == nil {
+				return c13Origin{v, fr}
+			}
+			idx := -1
+			for k, p := range fr.Fn.Params {
+				if p == u {
+					idx = k
+				}
+			}
+			if idx < 0 || idx >= len(fr.Call.Common().Args) {
+				return c13Origin{v, fr}
+			}
+			v, fr = fr.Call.Common().Args[idx], fr.Parent
+			continue
+		}
+		return c13Origin{v, fr}
+	}
+	return c13Origin{v, fr}
+}
+
+// c13ValuesOriginating: the values of fr.Fn whose origin is `want`.
+func c13ValuesOriginating(fr *c13Frame, want c13Origin) map[ssa.Value]bool {
+	out := map[ssa.Value]bool{}
+	consider := func(v ssa.Value) {
+		if o := c13OriginOf(v, fr); o.Val == want.Val && o.Frame != nil && want.Frame != nil && o.Frame.Fn == want.Frame.Fn {
+			for a := range Aliases(v) {
+				out[a] = true
+			}
+		}
+	}
+	for _, p := range fr.Fn.Params {
+		consider(p)
+	}
+	AllInstrs(fr.Fn, func(in ssa.Instruction) {
+		if u, ok := in.(*ssa.UnOp); ok && u.Op == token.MUL {
+			consider(u)
+		}
+	})
+	return out
+}
+
+// c13StreamFact decides a property of every element an iterator pipeline
+// delivers.  holds(fr, at, elem) says whether the fact is established for the
+// element value `elem` at the yield call `at` inside activation fr (by
+// conditions of that function).
+type c13StreamFact func(fr *c13Frame, at ssa.Instruction, elem ssa.Value) bool
+
+// c13StreamHasFact: every element yielded by the stream value v (of fr.Fn)
+// has the fact.  A stream is resolved to its producer: a closure
+// func(yield) created directly or returned by an in-module function; a
+// producer either yields elements itself, or ranges over an inner stream
+// (go/ssa: a call of the inner stream with a synthesized body closure) and
+// passes the elements on — then the inner stream's fact is inherited for
+// elements passed on unchanged (first component for Seq2 → Seq projections).
+// why names the first emission that lacks the fact.
+func c13StreamHasFact(v ssa.Value, fr *c13Frame, holds c13StreamFact, depth int) (ok bool, why string) {
+	if depth <= 0 {
+		return false, "iterator pipeline too deep"
+	}
+	o := c13OriginOf(v, fr)
+	switch u := o.Val.(type) {
+	case *ssa.MakeClosure:
+		return c13ProducerHasFact(&c13Frame{Fn: u.Fn.(*ssa.Function), MC: u, Parent: o.Frame}, holds, depth-1)
+	case *ssa.Call:
+		P := StaticCallee(u)
+		if P == nil || !inModule(P) || len(P.Blocks) == 0 {
+			return false, "the iterator comes from " + CalleeName(u) + ", which is not followed"
+		}
+		pf := &c13Frame{Fn: P, Call: u, Parent: o.Frame}
+		atoms := RetAtoms(P, 0)
+		if len(atoms) == 0 {
+			return false, FnName(P) + " returns no iterator"
+		}
+		for _, a := range atoms {
+			if ok, why := c13StreamHasFact(a.Val, pf, holds, depth-1); !ok {
+				return false, why
+			}
+		}
+		return true, ""
+	}
+	return false, "the iterator value " + describe(o.Val) + " cannot be resolved to a producer"
+}
+
+func c13ProducerHasFact(yf *c13Frame, holds c13StreamFact, depth int) (bool, string) {
+	Y := yf.Fn
+	if len(Y.Params) == 0 {
+		return false, FnName(Y) + " is not an iterator body"
+	}
+	yieldO := c13Origin{Y.Params[len(Y.Params)-1], yf}
+	isYield := func(fr *c13Frame, callee ssa.Value) bool {
+		o := c13OriginOf(callee, fr)
+		return o.Val == yieldO.Val && o.Frame == yf
+	}
+	emissions := 0
+	// (i) elements yielded by the producer itself
+	for _, ci := range Calls(Y, func(string) bool { return true }) {
+		call, isCall := ci.(*ssa.Call)
+		if !isCall || call.Call.IsInvoke() || StaticCallee(call) != nil {
+			// (ii) a range over an inner stream: inner(body)
+			continue
+		}
+		if isYield(yf, call.Call.Value) {
+			emissions++
+			if len(call.Call.Args) == 0 || !holds(yf, call, call.Call.Args[0]) {
+				return false, "an element yielded by " + FnName(Y) + " is not known to satisfy the condition"
+			}
+			continue
+		}
+		// inner(body): dynamic call of a stream with one closure argument
+		if len(call.Call.Args) != 1 {
+			continue
+		}
+		mc, isMC := call.Call.Args[0].(*ssa.MakeClosure)
+		if !isMC {
+			continue
+		}
+		B := mc.Fn.(*ssa.Function)
+		bf := &c13Frame{Fn: B, MC: mc, Parent: yf}
+		inherited, checked := false, false
+		innerWhy := ""
+		for _, bi := range Calls(B, func(string) bool { return true }) {
+			bc, ok := bi.(*ssa.Call)
+			if !ok || bc.Call.IsInvoke() || StaticCallee(bc) != nil || !isYield(bf, bc.Call.Value) {
+				continue
+			}
+			emissions++
+			if len(bc.Call.Args) == 0 {
+				return false, "an element passed on by " + FnName(Y) + " cannot be identified"
+			}
+			if holds(bf, bc, bc.Call.Args[0]) {
+				continue
+			}
+			// passed on unchanged: inherit from the inner stream
+			if len(B.Params) == 0 || bc.Call.Args[0] != ssa.Value(B.Params[0]) {
+				return false, "an element produced inside " + FnName(Y) + " is not known to satisfy the condition"
+			}
+			if !checked {
+				checked = true
+				inherited, innerWhy = c13StreamHasFact(call.Call.Value, yf, holds, depth-1)
+			}
+			if !inherited {
+				return false, "an element passed on by " + FnName(Y) + " is not known to satisfy the condition (neither here nor in the iterator it ranges over: " + innerWhy + ")"
+			}
+		}
+	}
+	if emissions == 0 {
+		return false, FnName(Y) + " yields nothing that could be followed"
+	}
+	return true, ""
+}
+
+// c13BoolConstNorm: cond compares a boolean with a value whose origin is a
+// boolean constant (`x != byDigest` with byDigest bound to false at the call):
+// returns the other operand and whether it is negated.
+func c13BoolConstNorm(cond ssa.Value, fr *c13Frame) (inner ssa.Value, negate, ok bool) {
+	bo, isBin := cond.(*ssa.BinOp)
+	if !isBin || (bo.Op != token.EQL && bo.Op != token.NEQ) {
+		return nil, false, false
+	}
+	isBool := func(v ssa.Value) bool {
+		b, ok := types.Unalias(v.Type()).Underlying().(*types.Basic)
+		return ok && b.Kind() == types.Bool
+	}
+	if !isBool(bo.X) || !isBool(bo.Y) {
+		return nil, false, false
+	}
+	for _, pair := range [][2]ssa.Value{{bo.X, bo.Y}, {bo.Y, bo.X}} {
+		o := c13OriginOf(pair[1], fr)
+		if cst, isC := o.Val.(*ssa.Const); isC && cst.Value != nil && cst.Value.Kind() == constant.Bool {
+			k := constant.BoolVal(cst.Value)
+			// x == true: x ; x == false: !x ; x != true: !x ; x != false: x
+			return pair[0], (bo.Op == token.EQL) != k, true
+		}
+	}
+	return nil, false, false
+}
+
+// c13FrameClass lifts a base classifier (over value sets of one function) to
+// an activation: comparisons with bound boolean constants are normalised, and
+// calls of predicates — static in-module helpers, or function values whose
+// origin is a closure / function (e.g. a `keep func(T) bool` parameter) — are
+// summarised: true (false) implies the fact when every return of the predicate
+// that may be true (false) does.  setsOf computes the value sets inside an
+// activation given the element parameter.
+func c13FrameClass(fr *c13Frame, base func(fn *ssa.Function, sets []map[ssa.Value]bool) c13CondClass, setsOf func(fr *c13Frame, elem map[ssa.Value]bool) []map[ssa.Value]bool, elem map[ssa.Value]bool, depth int) c13CondClass {
+	own := base(fr.Fn, setsOf(fr, elem))
+	var class c13CondClass
+	class = func(cond ssa.Value) (bool, bool) {
+		if inner, neg, ok := c13BoolConstNorm(cond, fr); ok {
+			t, f := class(inner)
+			if neg {
+				return f, t
+			}
+			return t, f
+		}
+		t, f := own(cond)
+		call, isCall := cond.(*ssa.Call)
+		if !isCall || depth <= 0 || call.Call.IsInvoke() {
+			return t, f
+		}
+		if rs := call.Call.Signature().Results(); rs.Len() != 1 || !types.Identical(rs.At(0).Type(), types.Typ[types.Bool]) {
+			return t, f
+		}
+		// which predicate, in which activation
+		var kf *c13Frame
+		if K := StaticCallee(call); K != nil {
+			if inModule(K) && len(K.Blocks) > 0 {
+				kf = &c13Frame{Fn: K, Call: call, Parent: fr}
+			}
+		} else {
+			o := c13OriginOf(call.Call.Value, fr)
+			switch k := o.Val.(type) {
+			case *ssa.MakeClosure:
+				kf = &c13Frame{Fn: k.Fn.(*ssa.Function), MC: k, Parent: o.Frame}
+			case *ssa.Function:
+				if len(k.Blocks) > 0 {
+					kf = &c13Frame{Fn: k, Parent: fr}
+				}
+			}
+		}
+		if kf == nil || kf.Fn == fr.Fn {
+			return t, f
+		}
+		// the element inside the predicate: the parameters that receive a value of elem
+		kelem := map[ssa.Value]bool{}
+		params := kf.Fn.Params
+		args := call.Call.Args
+		for i, a := range args {
+			if elem[a] && i < len(params) {
+				for x := range Aliases(params[i]) {
+					kelem[x] = true
+				}
+			}
+		}
+		cf := c13NewCondFacts(kf.Fn, c13FrameClass(kf, base, setsOf, kelem, depth-1))
+		ht, hf := true, true
+		for _, a := range RetAtoms(kf.Fn, 0) {
+			for _, truth := range []bool{true, false} {
+				if cf.Implies(a.Val, truth, 0) || !c13AtomReach(kf.Fn.Blocks[0], 0, a, newCut().Edges(cf.list()...)) {
+					continue
+				}
+				if truth {
+					ht = false
+				} else {
+					hf = false
+				}
+			}
+		}
+		return t || ht, f || hf
+	}
+	return class
 }
